@@ -16,6 +16,7 @@ CONSTANTS MaxNodes, MaxRels,
           Canon,            \* TRUE: nodes / relationships are added in non-decreasing order (symmetry cut)
           Hist,             \* TRUE: C02 histories (mutators + physical steps)
           MaxHist,
+          AskAt,            \* the query is asked once the history has at least this many steps
           Dev               \* deviations enabled in the design-level laws (self-test)
 
 VARIABLES G, q, hist
@@ -174,7 +175,8 @@ FamAggHop ==
     {Q1(<<Match(<<Path1(a0, RP("r", <<>>, d, <<>>), b0)>>, NoX), Ret(its)>>) : d \in {"out", "both"},
         its \in {<<Item(Var("a"), ""), Item(Agg("count", Var("r"), FALSE), "c")>>, <<Item(Var("a"), ""), Item(Agg("count", Var("b"), TRUE), "c")>>,
                  <<Item(Agg("count", Var("b"), TRUE), "c")>>, <<Item(Var("b"), ""), Item(Agg("collect", Var("a"), FALSE), "l")>>,
-                 <<Item(Prop("r", "p"), "k"), Item(CStar, "c")>>, <<Item(Agg("count", Var("r"), TRUE), "c"), Item(Agg("count", Var("a"), TRUE), "d")>>}}
+                 <<Item(Prop("r", "p"), "k"), Item(CStar, "c")>>, <<Item(Agg("count", Var("r"), TRUE), "c"), Item(Agg("count", Var("a"), TRUE), "d")>>,
+                 <<Item(Var("a"), ""), Item(Agg("collect", Var("b"), TRUE), "l")>>, <<Item(Agg("collect", Var("r"), TRUE), "l")>>}}
     \cup {Q1(<<Match(<<Path1(a0, RP("r", <<>>, "out", <<>>), b0)>>, NoX), RetD(<<Item(Var("a"), "")>>)>>),
           Q1(<<Match(<<Path1(a0, RP("r", <<>>, "both", <<>>), b0)>>, NoX), RetD(<<Item(Var("a"), ""), Item(Var("b"), "")>>)>>),
           Q1(<<Match(<<Path1(a0, RP("", <<"T">>, "out", <<>>), b0)>>, NoX), Ret(<<Item(CStar, "c")>>)>>),
@@ -283,12 +285,45 @@ FamVar ==
           Q1(<<Match(<<Path2(a0, RP("r", <<>>, "out", <<>>), b0, VL("", <<>>, "out", 1, 2), c0)>>, NoX), Ret(<<Item(va, ""), Item(Var("r"), ""), Item(Var("c"), "")>>)>>),
           Q1(<<Match(<<Path1(a0, VL("", <<>>, "out", 1, 2), b0)>>, NoX), Ret(<<Item(va, ""), Item(Agg("count", vb, FALSE), "c"), Item(Agg("count", vb, TRUE), "d")>>)>>),
           Q1(<<Match(<<Path1(a0, VL("", <<>>, "out", 1, 2), b0)>>, NoX), RetD(<<Item(va, ""), Item(vb, "")>>)>>),
-          Q1(<<MA, OptMatch(<<Path1(a0, VL("", <<>>, "out", 2, 2), b0)>>, NoX), RetAB>>)}
+          Q1(<<MA, OptMatch(<<Path1(a0, VL("", <<>>, "out", 2, 2), b0)>>, NoX), RetAB>>),
+          Q1(<<Match(<<Path0(a0), Path0(b0)>>, NoX), Match(<<Path1(a0, VL("", <<>>, "out", 1, 2), b0)>>, NoX), RetAB>>),
+          Q1(<<MA, OptMatch(<<Path1(a0, RP("", <<>>, "out", <<>>), b0)>>, NoX), Match(<<Path1(a0, VL("", <<>>, "both", 1, 2), b0)>>, NoX), RetAB>>)}
 FamShort ==
     {Q1(<<Match(<<SP(k, a0, VL("", <<>>, d, lh[1], lh[2]), b0)>>, w), RetAB>>) :
         k \in {"shortest"}, d \in Dirs, lh \in {<<1, 2>>, <<1, 3>>}, w \in {Cmp("<>", va, vb)}}
     \cup {Q1(<<Match(<<Path0(a0), Path0(b0)>>, Cmp("<>", va, vb)), Match(<<SP("shortest", a0, VL("", <<>>, "out", 1, 3), b0)>>, NoX), RetAB>>)}
     \cup {Q1(<<Match(<<SP("all", a0, VL("", <<>>, d, 1, 3), b0)>>, Cmp("<>", va, vb)), RetAB>>) : d \in {"out", "both"}}
+
+\* stage 8: composed queries for the random walks: first clause x second clause x final clause (all bind a, b)
+MixFirst ==
+    {Match(<<Path1(x, RP("r", ts, d, <<>>), y)>>, w) :
+        x \in {a0, aA, NP("a", <<>>, <<KV("p", VInt(1))>>)}, y \in {b0, bA}, ts \in {<<>>, <<"T">>}, d \in Dirs,
+        w \in {NoX, Cmp("=", ap, bp), Cmp("<", ap, Lit(VInt(2))), IsNullX(bp), Cmp("<>", va, vb)}}
+    \cup {Match(<<Path0(x), Path0(y)>>, w) : x \in {a0, aA}, y \in {b0, bA}, w \in {NoX, Cmp("=", ap, bp), Cmp("<>", va, vb), Cmp("<", ap, bp)}}
+    \cup {Match(<<Path2(a0, RP("", <<>>, d1, <<>>), c0, RP("", <<>>, d2, <<>>), b0)>>, w) : d1 \in Dirs, d2 \in Dirs, w \in {NoX, Cmp("<>", va, vb)}}
+    \cup {Match(<<Path1(a0, VL("", ts, d, lh[1], lh[2]), b0)>>, NoX) : ts \in {<<>>, <<"T">>}, d \in Dirs, lh \in {<<1, 2>>, <<0, 1>>, <<2, 3>>}}
+MixSecond ==
+    {<<>>,
+     <<OptMatch(<<Path1(b0, RP("", <<>>, "out", <<>>), c0)>>, NoX)>>,
+     <<OptMatch(<<Path1(b0, RP("", <<"T">>, "both", <<>>), NP("c", <<"A">>, <<>>))>>, Cmp("<>", Var("c"), va))>>,
+     <<With(<<Item(va, "a"), Item(vb, "b")>>, NotNullX(bp)), Match(<<Path0(c0)>>, Cmp("=", Prop("c", "p"), ap))>>,
+     <<Unwind(LitList(<<VInt(1), VInt(2)>>), "c")>>,
+     <<Match(<<Path1(b0, RP("", <<>>, "out", <<>>), c0)>>, NoX)>>}
+cp == Prop("c", "p")
+MixLast(hasc) ==
+    {Ret(<<Item(va, ""), Item(vb, "")>>), RetD(<<Item(ap, "x"), Item(bp, "y")>>),
+     Ret(<<Item(ap, "k"), Item(CStar, "n")>>), Ret(<<Item(va, ""), Item(Agg("count", vb, TRUE), "n"), Item(Agg("min", bp, FALSE), "m")>>),
+     Ret(<<Item(Agg("collect", bp, FALSE), "l"), Item(Agg("sum", ap, FALSE), "s")>>),
+     RetO(<<Item(ap, "x"), Item(bp, "y")>>, <<Ord(Var("x"), TRUE), Ord(Var("y"), FALSE)>>, -1, 2),
+     RetO(<<Item(va, ""), Item(bp, "y")>>, <<Ord(Var("y"), FALSE)>>, 1, 1),
+     RetO(<<Item(ap, "k"), Item(CStar, "n")>>, <<Ord(Var("n"), FALSE), Ord(Var("k"), TRUE)>>, -1, 1),
+     Ret(<<Item(Cmp("=", ap, bp), "t"), Item(IsNullX(bp), "u")>>)}
+    \cup (IF hasc THEN {Ret(<<Item(va, ""), Item(vb, ""), Item(Var("c"), "")>>), Ret(<<Item(va, ""), Item(Agg("count", Var("c"), FALSE), "n")>>),
+                        RetD(<<Item(Var("c"), "")>>)} ELSE {})
+FamMix == {Q1(<<m>> \o s2 \o <<r>>) : m \in MixFirst, s2 \in MixSecond, r \in MixLast(FALSE)}
+          \cup {Q1(<<m>> \o s2 \o <<r>>) : m \in MixFirst, s2 \in MixSecond \ {<<>>}, r \in MixLast(TRUE) \ MixLast(FALSE)}
+FamAll == FamScanL \cup FamScanW1 \cup FamScanW2 \cup FamScanI \cup FamHopD \cup FamHopP \cup FamAgg \cup FamAggHop \cup FamOpt
+          \cup FamOrd \cup FamOrd2 \cup FamWith \cup FamWithHop \cup FamUnwind \cup FamUnion \cup FamVar \cup FamShort
 
 Fam(g) ==
     CASE Family = "scanL" -> FamScanL
@@ -309,6 +344,8 @@ Fam(g) ==
       [] Family = "union" -> FamUnion
       [] Family = "var" -> FamVar
       [] Family = "short" -> FamShort
+      [] Family = "mix" -> FamMix
+      [] Family = "all" -> FamAll
 
 \* ------------------------------------------------------------------ graph building
 Init == G = EmptyGraph /\ q = NoQ /\ hist = <<>>
@@ -382,7 +419,7 @@ Linear(x) ==
        /\ cs[2].c = "return" /\ ~cs[2].distinct /\ ~HasWindow(cs[2]) /\ cs[2].order = <<>>
        /\ \A i \in DOMAIN cs[2].items : ~IsAgg(cs[2].items[i].e)
 Ask ==
-    /\ ~Asked /\ G.nodes # <<>>
+    /\ ~Asked /\ G.nodes # <<>> /\ Len(hist) >= AskAt
     /\ \E x \in Fam(G) : q' = x /\ H(IF Hist THEN [op |-> "Query", q |-> x, lin |-> Linear(x)] ELSE [op |-> "Query", q |-> x])
     /\ UNCHANGED G
 Next == \/ (~Hist /\ (DoAddNode \/ DoAddRel)) \/ Ask
